@@ -163,6 +163,14 @@ def collect(repo, res, modules=None):
                             f'`self.{fld}` holds the caller\'s `{p}` (stored by {e}) and may be modified in place: {s.describe()}',
                             {'class': c.fullname, 'field': fld, 'sources': sorted(src)[:4],
                              'chain': list(s.chain), 'what': s.what}))
+    if res.prop != 'C10':
+        # findings that are C10's listed known findings are reported by C10 only
+        from ..report import load_known
+        c10_known = {k['key'] for k in load_known() if k.get('property') == 'C10' and k.get('status') == 'known'}
+        dropped = [f for f in res.findings if f.rule == 'A1' and f.key in c10_known]
+        if dropped:
+            res.findings = [f for f in res.findings if not (f.rule == 'A1' and f.key in c10_known)]
+            res.notes['a1_findings_listed_under_C10'] = [f.key for f in dropped]
     res.notes['public_entry_points'] = n_entries
     res.notes['call_sites_resolved'] = d.resolved_calls
     res.notes['call_sites_external_assumed_pure'] = sum(d.unresolved.values())
